@@ -20,7 +20,7 @@ RULE = (
     "scalar-valued vector/matrix node) x op in {+,-,*,/} x n in 2..4 (quick) / 2..6 (thorough) x association "
     "{left-deep accumulation, balanced} x every threshold value T in 0..n+1 written to the four "
     "_RECURSION_THRESHOLD copies jointly and one module at a time (fresh expression and cleared caches per "
-    "configuration), plus all mixed chains of two term kinds and two operators over a reduced menu; REAL regime = "
+    "configuration; also with warm per-object caches and with every variable mention a distinct Variable object of the same name), plus all mixed chains of two term kinds and two operators over a reduced menu; REAL regime = "
     "accumulations of n in {399,400,401,900} terms cycling over 3 variables for value / compile / gradient / "
     "degree / solve and n in {401,5000,20000} for symbolic gradient, degree and variable discovery, default "
     "thresholds and default recursion limit, against the balanced and the vectorised build.  transitions = API "
@@ -241,7 +241,7 @@ def run_config(terms, ops, assoc, T, which, fails, rep, tag):
     params = {p: 0.75 for p in pnames}
     pts, Pn = points(names)
     ref, A = ref_fold(terms, ops, names, pts, Pn, params)
-    b = Builder(params=params)
+    b = Builder(params=params, duplicate_variables=(assoc == "left-dupvars"))
     try:
         e = left_deep(b, terms, ops, warm=(assoc == "left-warm")) if assoc.startswith("left") else balanced(b, terms, ops)
     except Exception as ex:
@@ -282,15 +282,20 @@ def check_small(kinds, ops, n, rep=None, want=None, Ts=None):
     degs = {}
     full = list(range(0, n + 2))
     if Ts == "quick-single":      # every T jointly; single modules only at the two extreme switch positions
-        plan = [("all", T) for T in full] + [(w, T) for w in ("autodiff", "compiler", "analysis", "expressions") for T in (0, n - 1)]
+        plan = [("all", T) for T in sorted({0, 1, n - 1, n, n + 1})] + [(w, T) for w in ("autodiff", "compiler", "analysis", "expressions") for T in (0, n - 1)]
     elif Ts == "quick-mixed":
-        plan = [("all", T) for T in (0, 1, n - 1)]
+        plan = [("all", T) for T in (0, n - 1)]
     else:
         plan = [(w, T) for w in ("all", "autodiff", "compiler", "analysis", "expressions") for T in full]
-    for assoc in ("left", "balanced", "left-warm"):
+    for assoc in ("left", "balanced", "left-warm", "left-dupvars"):
+        if Ts == "quick-mixed" and assoc in ("left-warm", "left-dupvars"):
+            continue
         for which, T in plan:
             if assoc == "left-warm" and (which not in ("all", "analysis", "expressions")
                                          or (Ts is not None and (which != "all" or T not in (0, n - 1, n + 1)))):
+                continue
+            if assoc == "left-dupvars" and (which not in ("all", "autodiff", "compiler")
+                                            or (Ts is not None and (which != "all" or T not in (0, n + 1)))):
                 continue
             if True:
                 tag = {"assoc": assoc, "T": T, "modules": which}
@@ -623,7 +628,7 @@ def real_items(tier):
 
 def shards(tier, seed):
     sm = small_items(tier)
-    chunks = [("chunk", "small", i, 40) for i in range(40)]
+    chunks = [("chunk", "small", i, 160) for i in range(160)]
     return chunks + real_items(tier)
 
 
